@@ -254,6 +254,21 @@ def run_c03(tier, seed, replay=None):
         body = [["fresh", ["x", "y"], ["neq", rnd.choice(["q", "r", ["list", "q", "r"]]), other]] +
                 ([["eq", "x", "r"]] if rnd.random() < 0.5 else [])]
         cases.append(mk_case([], ["q", "r"], body))
+    # a disequality whose value side has a variable NESTED in a list / compound, and that variable is bound (before or
+    # after) to a hidden fresh variable or to a structure holding one: the constraint is irrelevant to the answer
+    for _ in range(n // 5):
+        k = rnd.randint(1, 3)
+        val = rnd.choice([["list", "a", k], ["comp", "Pair", k, "a"], ["list", ["list", "a"], k], ["comp", "Wrap", ["list", "a", "a"]],
+                          ["ilist", k, "a"], ["comp", "Named", "a", k]])
+        bind = rnd.choice([["eq", "a", "b"], ["eq", "a", ["list", "b"]], ["eq", "a", ["comp", "Pair", "b", "c"]], ["eq", "b", "a"],
+                           ["eq", ["list", "a", "c"], ["list", ["list", "b"], "b"]]])
+        lhs = rnd.choice(["q", ["list", "q", 0], "r"])
+        gs = [["neq", lhs, val], bind]
+        if rnd.random() < 0.5:
+            gs.reverse()
+        if rnd.random() < 0.3:
+            gs.append(["neq", "r", k])          # a relevant constraint next to the irrelevant one
+        cases.append(mk_case([], ["q", "r"], [["fresh", ["a", "b", "c"]] + gs]))
     return pcheck.run_check("C03", tier, seed, cases, "exact", oracle_c03, cone=["Proofs/ReifyProofs.vo", "Proofs/EngineProofs.vo", "Proofs/ScopeReify.vo"], replay=replay,
         rule="programs of ==, !=, fresh, conde over lists and four compound types with 1-3 query variables sharing free variables, plus "
              "constraints on hidden variables and on variables nested in compounds/lists; every answer is checked: only reified variables in "
@@ -446,6 +461,9 @@ def oracle_c22(cases, impl, model):
                     if w - t != s:
                         fails.append({"case_index": k, "what": "at probe %s: with_constraint calls %d - take_constraint calls %d != %d constraints in the store" % (pr[1], w, t, s)})
                         break
+                    if len(pr) > 7 and int(pr[7]) != 0:
+                        fails.append({"case_index": k, "what": "before probe %s process_extension was given %s binding(s) that are not entries of the substitution (not the variables that were bound)" % (pr[1], pr[7])})
+                        break
         def norm(res):
             # absolute hook counts depend on the order in which the store is re-run (hash order in Rust):
             # compare the balance, the store size, the number of extensions and the last extension
@@ -494,6 +512,16 @@ def run_c22(tier, seed, replay=None):
                  rnd.choice([["rel", "ltefd", "q", "r"], ["rel", "plusfd", "q", 1, "r"], ["rel", "diseqfd", "q", "r"]]), ["probe", "c"],
                  rnd.choice([["eq", "q", lo], ["neq", "q", "r"], ["rel", "ltefd", "r", hi - 1]]), ["probe", "end"]]
         cases.append(mk_case([], ["q", "r"], goals, fd=True, mode="bag"))
+    # the extension reported to the hook names the variables that were actually bound: an aliased variable on the RIGHT of a
+    # value (the walked variable gets the binding, not the alias), also inside lists and compounds
+    for _ in range(n // 4):
+        k = rnd.randint(1, 5)
+        alias = rnd.choice([["eq", "x", "y"], ["eq", "y", "x"], ["eq", ["list", "x", "z"], ["list", "y", "y"]]])
+        val = rnd.choice([k, ["list", k, 2], ["comp", "Pair", k, "q"], ["list"]])
+        late = rnd.choice([["eq", val, "x"], ["eq", ["list", 1, val], ["list", "z", "x"]], ["eq", ["comp", "Pair", val, 0], ["comp", "Pair", "x", "r"]],
+                           ["eq", val, "y"], ["eq", ["list", val, val], ["list", "x", "y"]]])
+        goals = [["fresh", ["x", "y", "z"], alias, ["probe", "a"], late, ["probe", "b"], ["eq", "q", ["list", "x", "y"]], ["probe", "end"]]]
+        cases.append(mk_case([], ["q", "r"], goals))
     return pcheck.run_check("C22", tier, seed, cases, "exact", oracle_c22, cone=["Proofs/HookProofs.vo", "Proofs/HookStream.vo", "Proofs/EngineProofs.vo"], replay=replay,
         rule="programs of ==, !=, conde, fresh and finite-domain constraints run with an instrumented User type; probe goals after the goals and "
              "at the end record, per lineage, the hook counters, the store size and the shape of the last extension; at every probe "
